@@ -167,6 +167,7 @@ func genC02(seed uint64, run int, tier string) Scenario {
 	sc.Server.Echo = r.IntN(4) == 0
 	sc.WantVersion = ver
 	faulty := ver == "1.1" && r.IntN(3) == 0 // fault sub-batch: malformed frames
+	sc.Net.JoinMsgs = !faulty && r.IntN(3) == 0
 	sc.Class = "decode/" + ver
 	if faulty {
 		sc.Class += "/malformed"
